@@ -169,17 +169,15 @@ def step_grep():
 
 
 def step_cargo(prop):
-    lock_src = "/repo/Cargo.lock"
-    lock_dst = os.path.join(HARNESS, "Cargo.lock")
-    with Lock("cargo"):
-        if not os.path.exists(lock_dst) and os.path.exists(lock_src):
-            import shutil
-            shutil.copy(lock_src, lock_dst)
-        rc, out = run(["cargo", "build", "--offline", "-p", "vh-" + prop.lower()], cwd=HARNESS, timeout=3000)
-        if rc != 0 and "lock file" in out and os.path.exists(lock_src):
-            import shutil
-            shutil.copy(lock_src, lock_dst)
-            rc, out = run(["cargo", "build", "--offline", "-p", "vh-" + prop.lower()], cwd=HARNESS, timeout=3000)
+    """standalone crate harness/props/cNN (tools/cb.py normalises the manifest and provides the lock)"""
+    with Lock("cargo-" + prop):
+        rc, out = run([sys.executable, os.path.join(HERE, "cb.py"), prop.lower()], timeout=3000)
+        if rc != 0 and "lock file" in out:
+            try:
+                os.remove(os.path.join(HARNESS, "props", prop.lower(), "Cargo.lock"))
+            except OSError:
+                pass
+            rc, out = run([sys.executable, os.path.join(HERE, "cb.py"), prop.lower()], timeout=3000)
     return rc, out
 
 
